@@ -8,4 +8,5 @@ CONSTANTS
   FixD12 = TRUE
   FixD17 = TRUE
   FixD18 = FALSE
+  FixD20 = TRUE
 INVARIANT C13_ScheduledWatchHasEmitter
